@@ -108,12 +108,15 @@ def absStep (bases : List Nat) (M : List Mult) (s : GStmt) : Option (List Mult) 
     | .add | .sub => match x, y with
       | some a, some b => if a + b ≤ 3 then some (M.set d (some (a + b))) else none
       | _, _ => none
-    | .neg | .copy => match x with
+    | .neg => match x with
+      | some a => if a ≤ 3 then some (M.set d (some a)) else none
+      | _ => none
+    | .copy => match x with
       | some a => some (M.set d (some a))
       | _ => none
     | .zero | .one => some (M.set d (some 1))
     | .cmove => match M.getD d none, x with
-      | some a, some b => some (M.set d (some (max a b)))
+      | some a, some b => if a ≤ 3 ∧ b ≤ 3 then some (M.set d (some (max a b))) else none
       | _, _ => none
   else none
 
